@@ -530,6 +530,7 @@ def _marshal(ctx):
     def extra_u(interp):
         interp.types[tyme] = 'dict'
     out_u, _i = extract(world, thunk_u, setup=_setup(extra_u))
+    _unmarshal_twice(ctx, u)
     for outs, what in ((out_m, 'marshall_now'), (out_u, 'unmarshall_time')):
         notes = inexact_notes(outs)
         if notes:
@@ -566,6 +567,45 @@ def _marshal(ctx):
               'zone) cases incl. leap seconds%s' % (
                   n, '' if bad is None else ': for %s %s' % bad),
               case=str(bad[0]) if bad else None)
+
+
+def _unmarshal_twice(ctx, u):
+    """unmarshall_time reads its argument: the same dict unmarshalled twice
+    gives the same datetime and is left as it was."""
+    from ..core.table import _norm_text
+    rep, world = ctx.report, ctx.world
+    for tz in ('UTC', 'UTC+00:00', None):
+        items = [('day', 17), ('month', 5), ('year', 2030), ('hour', 23),
+                 ('minute', 59), ('second', 60), ('microsecond', 999999)]
+        if tz:
+            items.append(('tzname', tz))
+        holder = {}
+
+        def thunk(interp):
+            d = DictV([(K(k), K(v)) for k, v in items])
+            holder['d'] = d
+            r1 = interp.call(u, [d])
+            keys1 = [k.v for k in d.keys]
+            r2 = interp.call(u, [d])
+            return TupleV([r1, r2, K(tuple(keys1)),
+                           K(tuple(k.v for k in d.keys))])
+        outcomes, _i = extract(world, thunk, setup=_setup())
+        key = 'unmarshall_time[the same dict twice, tzname=%s]' % tz
+        notes = inexact_notes(outcomes)
+        if notes or not outcomes:
+            rep.undecided('R12.4', key, 'inexact: %s' % notes)
+            continue
+        for o in outcomes:
+            ok = o.kind == 'return' and isinstance(o.value, TupleV) and \
+                _norm_text(o.value.items[0]) == _norm_text(
+                    o.value.items[1]) and \
+                o.value.items[2] == K(tuple(k for k, _v in items)) and \
+                o.value.items[3] == o.value.items[2]
+            rep.check('R12.4', key, ok,
+                      'both calls give %s and the dict keeps its keys %s; '
+                      'found %s' % (
+                          'the same datetime', [k for k, _v in items],
+                          o.brief()[:300]))
 
 
 def _marshal_grid(rep, out_m, out_u, now, tyme, iso8601, samples, bad, n,
